@@ -3,13 +3,16 @@ package props
 import (
 	"encoding/json"
 	"fmt"
+	"math"
 	"os"
 	"os/exec"
 	"path/filepath"
+	"strconv"
 	"sync"
 	"testing"
 	"time"
 
+	bandtypes "github.com/comdex-official/comdex/x/bandoracle/types"
 	liqV2types "github.com/comdex-official/comdex/x/liquidationsV2/types"
 	sdk "github.com/cosmos/cosmos-sdk/types"
 	govv1beta1 "github.com/cosmos/cosmos-sdk/x/gov/types/v1beta1"
@@ -42,6 +45,12 @@ func c16Setup(t *testing.T, u c16Universe) *sim.Chain {
 		return liqNewWorld(t, ev.NewScratch(), rng("C16-liq-setup", u.Variant), u.Variant, nil).c
 	case "lend":
 		return c08Setup(t, ev.NewScratch(), rng("C16-lend-setup", u.Variant), 0, u.Variant%3, true).c
+	case "rewards":
+		return c16RewardsEnv(t, u).c
+	case "rewards-prog":
+		return c19ProgNewEnv(t, ev.NewScratch(), rng("C16-rewards-prog-setup", u.Variant), u.Variant).c
+	case "oracle":
+		return c16OracleUniverse(t, u).c
 	}
 	t.Fatalf("unknown universe %s", u.Name)
 	return nil
@@ -123,7 +132,184 @@ func init() {
 		e.c.NextBlock(6 * time.Second)
 		return e.c.Tape
 	}
+	// gauges (plain, master/child, swap-fee), farming queues, epochs passing and being skipped, the locker programme,
+	// governance switching the swap-fee distribution denomination
+	c16Recorders["rewards"] = func(t *testing.T, rec *ev.Rec, u c16Universe, steps int) *sim.Tape {
+		e := c16RewardsEnv(t, u)
+		defer e.c.Close()
+		e.rnd = rng("C16-rewards", u.Variant)
+		e.c.Tape = &sim.Tape{}
+		for i := 0; i < 3; i++ {
+			e.createGauge(false)
+		}
+		for b := 0; b < steps/8 && !e.panicked; b++ {
+			na := e.rnd.Intn(5)
+			if b < 6 {
+				na = 4 + e.rnd.Intn(4)
+			}
+			for i := 0; i < na; i++ {
+				e.action()
+			}
+			e.step(e.pickDt())
+		}
+		e.step(6 * time.Second)
+		rec.Count("rewards_tape_gauges", int64(len(e.c.App.Rewardskeeper.GetAllGauges(e.c.Ctx()))))
+		for _, ei := range e.c.App.Rewardskeeper.GetAllEpochInfos(e.c.Ctx()) {
+			rec.Count("rewards_tape_epochs_ticked", ei.CurrentEpoch)
+		}
+		return e.c.Tape
+	}
+	// the four kinds of external reward programme paying out next to gauges
+	c16Recorders["rewards-prog"] = func(t *testing.T, rec *ev.Rec, u c16Universe, steps int) *sim.Tape {
+		e := c19ProgNewEnv(t, ev.NewScratch(), rng("C16-rewards-prog-setup", u.Variant), u.Variant)
+		defer e.c.Close()
+		e.rnd = rng("C16-rewards-prog", u.Variant)
+		e.c.Tape = &sim.Tape{}
+		e.run(u.Variant, steps/10)
+		e.step(6 * time.Second)
+		for _, p := range c19Programmes(e.c, e.c.Ctx()) {
+			rec.Count("rewards_tape_programmes_"+p.kind, 1)
+			if p.avail.Amount.LT(p.total.Amount) {
+				rec.Count("rewards_tape_programmes_paid_"+p.kind, 1)
+			}
+		}
+		return e.c.Tape
+	}
+	// the CDP workload on the real bandoracle -> market begin-block pipeline: oracle responses are stored the way the
+	// IBC acknowledgement handler stores them (environment action "band-result"), every 20th block consumes them
+	c16Recorders["oracle"] = func(t *testing.T, rec *ev.Rec, u c16Universe, steps int) *sim.Tape {
+		cu := c16OracleUniverse(t, u)
+		c := cu.c
+		defer c.Close()
+		c.Tape = &sim.Tape{}
+		rnd := rng("C16-oracle", u.Variant)
+		r := newCdpRunner(cu, rnd, rec, cdpCfg{bids: true, lockers: true, liquidateMsg: true, limitBids: true, maxGap: 30 * time.Second})
+		var ids []uint64
+		base := map[uint64]uint64{}
+		for _, a := range c.App.AssetKeeper.GetAssets(c.Ctx()) {
+			if a.IsOraclePriceRequired {
+				ids = append(ids, a.Id)
+				tw, _ := c.App.MarketKeeper.GetTwa(c.Ctx(), a.Id)
+				base[a.Id] = tw.Twa
+			}
+		}
+		var lastID int64
+		for round := 0; round < steps/30 && !r.panicked; round++ {
+			if rnd.Intn(6) != 0 { // else: the relayer delivered nothing new (stale round)
+				lastID++
+				rates := make([]uint64, 0, len(ids))
+				for _, id := range ids {
+					v := base[id]*uint64(60+rnd.Intn(90))/100 + 1
+					switch rnd.Intn(12) {
+					case 0:
+						v = 0
+					case 1:
+						v = []uint64{math.MaxUint64, 1 << 63, 1}[rnd.Intn(3)]
+					}
+					rates = append(rates, v)
+				}
+				if rnd.Intn(8) == 0 {
+					rates = rates[:len(rates)-1]
+				}
+				bz, _ := json.Marshal(rates)
+				r.env("feed", fmt.Sprintf("oracle result %d: %s", lastID, bz), func() { _ = c16Env(c, "band-result", fmt.Sprint(lastID), string(bz)) })
+				rec.Count("oracle_tape_results_fed", 1)
+			}
+			target := (c.Header.Height/20 + 1) * 20
+			for c.Header.Height < target && !r.panicked {
+				if rnd.Intn(3) == 0 {
+					r.step()
+				} else {
+					r.block(6 * time.Second)
+				}
+			}
+			for _, id := range ids {
+				if tw, ok := c.App.MarketKeeper.GetTwa(c.Ctx(), id); ok && tw.IsPriceActive && tw.Twa != base[id] {
+					rec.Count("oracle_tape_prices_published_by_pipeline", 1)
+				}
+			}
+		}
+		r.block(6 * time.Second)
+		r.block(6 * time.Second)
+		return c.Tape
+	}
 }
+
+// ---- environment actions beyond the price write the chain driver knows ("twa") ----
+//
+// Keeper writes the harness makes in the place of governance / the IBC acknowledgement handler are recorded on the
+// tape as "env" records and re-applied by every replica:
+//   band-result <request id> <json rates>   what the bandoracle acknowledgement handler stores for a fetch-price request
+//   liq-generic-params <app> <key> <value>  a liquidity generic-params governance update
+
+// c16Env records (when a tape is attached) and applies an environment action.
+func c16Env(c *sim.Chain, env string, args ...string) error {
+	rc := sim.TapeRec{Kind: "env", Env: env, Args: args}
+	if c.Tape != nil {
+		c.Tape.Recs = append(c.Tape.Recs, rc)
+	}
+	return c16ApplyEnv(c, rc)
+}
+
+func c16ApplyEnv(c *sim.Chain, rc sim.TapeRec) error {
+	switch rc.Env {
+	case "band-result":
+		id, err := strconv.ParseInt(rc.Args[0], 10, 64)
+		if err != nil {
+			panic(err)
+		}
+		var rates []uint64
+		if err := json.Unmarshal([]byte(rc.Args[1]), &rates); err != nil {
+			panic(err)
+		}
+		k := c.App.BandoracleKeeper
+		k.SetFetchPriceResult(c.Ctx(), bandtypes.OracleRequestID(id), bandtypes.FetchPriceResult{Rates: rates})
+		k.SetLastFetchPriceID(c.Ctx(), bandtypes.OracleRequestID(id))
+		return nil
+	case "liq-generic-params":
+		app, err := strconv.ParseUint(rc.Args[0], 10, 64)
+		if err != nil {
+			panic(err)
+		}
+		return c.App.LiquidityKeeper.UpdateGenericParams(c.Ctx(), app, []string{rc.Args[1]}, []string{rc.Args[2]})
+	}
+	c.ApplyEnv(rc)
+	return nil
+}
+
+// c16ReplayRec applies one tape record (the chain driver's ReplayRec plus the environment actions above).
+func c16ReplayRec(c *sim.Chain, rc sim.TapeRec) (sim.TxResult, bool) {
+	if rc.Kind == "env" {
+		_ = c16ApplyEnv(c, rc)
+		return sim.TxResult{}, false
+	}
+	return c.ReplayRec(rc)
+}
+
+// ---- rewards universes: gauges / farming / epochs / swap-fee gauges, and the external reward programmes ----
+
+func c16RewardsEnv(t *testing.T, u c16Universe) *c19Env {
+	nF := []int{3, 5, 8, 2}[u.Variant%4]
+	priceReg := []int{0, 3, 4, 1}[(u.Variant/2)%4]
+	// variant*3: the locker programme is part of every recorded scenario
+	return c19NewEnv(t, ev.NewScratch(), rng("C16-rewards-setup", u.Variant), u.Variant*3, nF, priceReg)
+}
+
+// ---- oracle universe: the CDP universe on the real bandoracle -> market begin-block feed ----
+
+func c16OracleUniverse(t *testing.T, u c16Universe) *cdpU {
+	cu := newCDP(t, cdpOpts{variant: u.Variant})
+	c := cu.c
+	c.App.NewliqKeeper.SetParams(c.Ctx(), liqV2types.Params{LiquidationBatchSize: uint64([]int{200, 3}[u.Variant%2])})
+	n := []int{2, 3, 2, 4}[u.Variant%4]
+	gap := []int64{20, 41, 100, 60}[(u.Variant/2)%4]
+	if err := c.App.BandoracleKeeper.AddFetchPriceRecords(c.Ctx(), bandtypes.MsgFetchPriceData{OracleScriptID: 112, SourceChannel: "channel-0", AskCount: 1, MinCount: 1, FeeLimit: sdk.NewCoins(), PrepareGas: 1, ExecuteGas: 1, TwaBatchSize: uint64(n), AcceptedHeightDiff: gap}); err != nil {
+		t.Fatalf("harness set-up: %v", err)
+	}
+	return cu
+}
+
+var c16ExtraUniverses = map[string]int{"rewards": 0, "rewards-prog": 1, "oracle": 2}
 
 type c16Divergence struct {
 	At   int
@@ -159,7 +345,7 @@ func c16Replay(t *testing.T, ct *c16Tape) *c16Divergence {
 				}
 			}
 		case "env":
-			c.ApplyEnv(rc)
+			_ = c16ApplyEnv(c, rc)
 		}
 	}
 	return nil
@@ -186,7 +372,7 @@ func c16AddDumps(t *testing.T, ct *c16Tape) *c16Divergence {
 			}
 			rc.Stores, _ = inject.Dump(c.Ctx().MultiStore(), keys)
 		case "env":
-			c.ApplyEnv(*rc)
+			_ = c16ApplyEnv(c, *rc)
 		}
 	}
 	return nil
@@ -218,7 +404,15 @@ func TestC16(t *testing.T) {
 	sortStrings(names)
 	for w := 0; w < workloads; w++ {
 		for _, name := range names {
+			// quick tier: every shard records the four original universes and ONE of the three added later
+			// (rewards, rewards-prog, oracle), rotating over the shards; the thorough tier records all in every shard
+			if k, extra := c16ExtraUniverses[name]; extra && ev.Tier() == "quick" && ev.NShards() >= 3 && k != ev.ShardNo()%3 {
+				continue
+			}
 			u := c16Universe{Name: name, Variant: ev.ShardNo()*workloads + w}
+			if name == "rewards-prog" {
+				u.Variant *= 2 // even programme scenarios contain lend programmes
+			}
 			tape := c16Recorders[name](t, rec, u, steps)
 			ct := &c16Tape{U: u, Tape: *tape}
 			ntx, nblk := 0, 0
@@ -283,6 +477,14 @@ func TestC16(t *testing.T) {
 	rec.Floor("recorded_blocks", 30)
 	rec.Floor("replays_concurrent", 2)
 	rec.Floor("replays_fresh-process", 1)
+	// the rewards / oracle tapes really contain what they are for
+	rec.Floor("rewards_tape_gauges", 4)
+	rec.Floor("rewards_tape_epochs_ticked", 10)
+	for _, k := range []string{"locker", "vault", "lend", "stable"} {
+		rec.Floor("rewards_tape_programmes_paid_"+k, 1)
+	}
+	rec.Floor("oracle_tape_results_fed", 3)
+	rec.Floor("oracle_tape_prices_published_by_pipeline", 8)
 }
 
 func lastLines(s string, n int) string {
